@@ -107,7 +107,7 @@ def eval_case(case: dict) -> dict:
             if mapping is not None:
                 got_exposed = {k: v for k, v in got_map.items() if k in exposed}
                 want = {k: v for k, v in mapping.items()}
-                if verdict == refcfg.ACCEPT and got_exposed != want:
+                if verdict != refcfg.REJECT and got_exposed != want:
                     viol('match-semantics-differ', want=want, got=got_exposed)
         else:
             if verdict == refcfg.REJECT:
@@ -135,7 +135,9 @@ def eval_case(case: dict) -> dict:
                 entries = got_acc.get(shellbuild.cap(name), [])
                 if len(entries) != 1:
                     viol('exposed-port-accessor-count', port=name, entries=entries)
-                elif verdict == refcfg.ACCEPT:
+                elif verdict != refcfg.REJECT and mapping is not None:
+                    if verdict == refcfg.UNSPECIFIED:
+                        cnt['semantics_compared_on_open_acceptance'] = 1
                     want_dir = 'Provides' if name in case['provides'] else 'Requires'
                     if entries[0] != (want_dir, mapping[name]):
                         viol('accessor-semantics-differ', port=name, want=mapping[name],
